@@ -51,6 +51,9 @@ def t12():
     types = [CLASS[src(e)] for e in at.value.elts]
     f = get_function(PATH, "ParameterisedActionSpace", "get_action")
     b = [s for s in body_of(f) if not isinstance(s, ast.Assert)]
+    # the components may first be turned into plain Python ints (same values; repair of defect D15)
+    if b and norm(src(b[0])) == "action_vec=[int(x)forxinaction_vec]":
+        b = b[1:]
     pos = {}
     # a_class = self.action_types[action_vec[i]]
     s0 = b[0]
